@@ -52,6 +52,7 @@ type c11Run struct {
 	id    uint32
 	trace []string
 	bad   bool
+	igSet bool // ig.tok lists the ignored names themselves (oracle op c11x): the predicate is given extensionally
 }
 
 func (h *c11Run) ignored(name string) bool {
@@ -194,7 +195,11 @@ func (h *c11Run) step(q fileReq) (reply string, res []hotline.Transaction) {
 		c.Dist("unmodelled-tree")
 		return
 	}
-	ans := c.O.Ask(fmt.Sprintf("c11 %s %d %s %s", h.ig.tok, len(pre), strings.Join(pre, " "), q.oracleArgs()))
+	op := "c11"
+	if h.igSet {
+		op = "c11x"
+	}
+	ans := c.O.Ask(fmt.Sprintf("%s %s %d %s %s", op, h.ig.tok, len(pre), strings.Join(pre, " "), q.oracleArgs()))
 	mreply, mtree, mok := splitOracleStep(ans)
 	if q.Kind == "info" || q.Kind == "download" || q.Kind == "upload" {
 		// the size of a DIRECTORY inode is file-system dependent (4096 here): not part of the model
@@ -355,6 +360,16 @@ func (h *c11Run) listAndJudge(chain []string) []diskEnt {
 	dir := h.dirPath(chain)
 	exp, okExp := h.expectedListing(dir)
 	reply, res := h.step(fileReq{Kind: "list", PF: pfb, HasPF: has})
+	// Aliases whose link string the file list resolves differently from the kernel (a RELATIVE link string: the list
+	// resolves it against the server's working directory, as coded) are reported to the lead as a defect candidate and
+	// left out of the comparison on both sides unless VERIF_C11_STRICT_ALIAS is set.
+	divergent := h.divergentAliases(dir)
+	if len(divergent) > 0 {
+		c.Dist("relative-alias-in-listed-folder (entry not judged)")
+		if !strings.HasPrefix(reply, "list ") {
+			return nil
+		}
+	}
 	if !okExp || !strings.HasPrefix(reply, "list ") {
 		if okExp && h.hasAliasLoop(dir) && os.Getenv("VERIF_C11_STRICT_ALIAS") == "" {
 			// An alias that points at itself (make-alias of a name that does not exist, into its own folder)
@@ -371,6 +386,21 @@ func (h *c11Run) listAndJudge(chain []string) []diskEnt {
 		return nil
 	}
 	got := parseList(&res[0])
+	if len(divergent) > 0 {
+		var exp2 []diskEnt
+		for _, e := range exp {
+			if !divergent[string(e.listed)] {
+				exp2 = append(exp2, e)
+			}
+		}
+		var got2 []listEntry
+		for _, g := range got {
+			if !divergent[string(g.Name)] {
+				got2 = append(got2, g)
+			}
+		}
+		exp, got = exp2, got2
+	}
 	var gs, es []string
 	for _, g := range got {
 		gs = append(gs, hx(g.Name))
@@ -430,7 +460,7 @@ func (h *c11Run) listAndJudge(chain []string) []diskEnt {
 		if checked >= 2 {
 			break
 		}
-		if !e.complete || e.link {
+		if !e.complete {
 			continue
 		}
 		// another entry listed under the same name (x next to x.incomplete) makes the name ambiguous by design
@@ -480,6 +510,11 @@ func (h *c11Run) listAndJudge(chain []string) []diskEnt {
 			if string(le.Type) != "fldr" {
 				c.Violation("type-disagree", "a folder is not listed with type fldr")
 			}
+			continue
+		}
+		if e.link {
+			// an alias is a first-class entry: the views of the entry its listed name addresses agree
+			h.judgeAliasViews(dir, e, le, pfb, has, ity, isz, hasSz)
 			continue
 		}
 		if !e.regular {
@@ -626,7 +661,7 @@ func c11History(c *Case) {
 				name, _ = macEnc(c11Pool[r.Intn(len(c11Pool))])
 			}
 		}
-		unique := ent != nil && ent.complete && !ent.link
+		unique := ent != nil && ent.complete
 		if unique {
 			n := 0
 			for _, o := range exp {
@@ -724,7 +759,19 @@ func c11History(c *Case) {
 				}
 				dirInfo, hadDirInfo = readOrNil(filepath.Join(dir, ".info_"+ent.name))
 			}
+			var linkBefore aliasState
+			judgeLink := unique && ent.link && newDisk != "/" && newDisk != ent.name
+			if judgeLink {
+				linkBefore = captureAlias(dir, ent.name)
+				if _, err := os.Lstat(filepath.Join(dir, newDisk)); err == nil {
+					judgeLink = false
+				}
+			}
 			reply, _ := h.step(q)
+			if judgeLink && reply == "ok" {
+				h.judgeAliasCarried("rename", linkBefore, dir, ent.name, dir, newDisk)
+				c.Nontrivial(fmt.Sprintf("alias-rename|%s|%s", ent.name, newDisk))
+			}
 			if judgeDir && reply == "ok" {
 				if li, err := os.Lstat(filepath.Join(dir, newDisk)); err == nil && li.IsDir() {
 					if _, err := os.Lstat(filepath.Join(dir, ent.name)); err != nil { // the folder did move
@@ -749,6 +796,11 @@ func c11History(c *Case) {
 			}
 		case k < 50: // set comment
 			cm := r.Text(r.Intn(24))
+			if r.Chance(30) {
+				// boundary lengths of the two-byte comment size field (65535 only in the comment-lengths family:
+				// the whole tree travels to the oracle on every later step)
+				cm = c11Comment(r, r.Pick(0, 1, 255, 256, 257, 300, 511, 512, 1000))
+			}
 			reply, _ := h.step(fileReq{Kind: "setinfo", PF: pfb, HasPF: has, Name: name, Comment: cm, HasComment: true})
 			if unique && reply == "ok" {
 				ireply, ires := h.step(fileReq{Kind: "info", PF: pfb, HasPF: has, Name: name})
@@ -781,13 +833,32 @@ func c11History(c *Case) {
 				h.step(fileReq{Kind: "newfolder", PF: npf, HasPF: nhas, Name: name})
 				judge = false
 			}
+			var linkBefore aliasState
+			judgeLink := unique && ent.link && dstDir != dir
+			if judgeLink {
+				linkBefore = captureAlias(dir, ent.name)
+				if _, err := os.Lstat(filepath.Join(dstDir, ent.name)); err == nil {
+					judgeLink = false
+				}
+			}
 			reply, _ := h.step(fileReq{Kind: "move", PF: pfb, HasPF: has, Name: name, NewPF: npf, HasNewPF: nhas})
+			if judgeLink && reply == "ok" {
+				h.judgeAliasCarried("move", linkBefore, dir, ent.name, dstDir, ent.name)
+				c.Nontrivial(fmt.Sprintf("alias-move|%s|%s", ent.name, strings.Join(dst, "/")))
+			}
 			if judge && reply == "ok" {
 				h.judgeCarried("move", before, dir, ent.name, dstDir, ent.name)
 				c.Nontrivial(fmt.Sprintf("move|%s|%s|%v%v%v", ent.name, strings.Join(dst, "/"), before.hi, before.hr, before.hf))
 			}
 		case k < 80: // delete
+			var linkBefore aliasState
+			if unique && ent.link {
+				linkBefore = captureAlias(dir, ent.name)
+			}
 			reply, _ := h.step(fileReq{Kind: "delete", PF: pfb, HasPF: has, Name: name})
+			if unique && ent.link && reply == "ok" && linkBefore.ok {
+				h.judgeAliasTargetKept("delete", linkBefore, filepath.Join(dir, ent.name))
+			}
 			if unique && reply == "ok" {
 				left := []string{}
 				if _, err := os.Lstat(filepath.Join(dir, ent.name)); err == nil {
@@ -907,6 +978,7 @@ func init() {
 			h.listAndJudge(nil)
 		}})
 		x.Add(&Family{Name: "histories", Quick: 800, Thor: 16000, Run: c11History})
+		c11WaveD(x)
 		x.Add(&Family{Name: "macroman", Quick: 400, Thor: 20000, Run: func(c *Case) {
 			r := c.R
 			// decoder / encoder tables against golang.org/x/text, entry by entry on the first case, random strings otherwise
